@@ -1200,6 +1200,7 @@ class Suspender(Interrupter):
             if aux.done: #if done after this iteraion clean up
                 self.deactivate(aux)
                 framer.reactivate()
+                self.resuspend(main)
                 return None
 
             return aux
@@ -1208,6 +1209,23 @@ class Suspender(Interrupter):
     def _expose(self):
         """      """
         console.terse("Suspender {0}\n".format(self.name))
+
+    def resuspend(self, main):
+        """
+        After the outline has been restored, truncate it again at the highest
+        frame, from main on down, that has another conditional aux still running
+        so that the frames below that frame stay suspended
+        """
+        framer = main.framer
+        for frame in framer.active.outline[len(main.head) - 1:]:
+            for act in frame.preacts:
+                actor = act.actor
+                if isinstance(actor, Suspender) and actor is not self:
+                    other = act.parms.get('aux')
+                    if (isinstance(other, framing.Framer) and not other.done and
+                            other.main is frame):
+                        framer.change(frame.head, frame.headHuman)
+                        return
 
     def deactivize(self, aux, **kwa):
         """ If not aux.done Then force deactivate. Used in exit action."""
